@@ -109,6 +109,16 @@ def run(ctx):
         wr = set(o for o, b, bi, st, k in field_write_sites(prog, ALLOCATOR, f) if not is_test_util(o) and not o.startswith(RA) and 'test' not in o)
         ctx.ob('R04.3', f'{f}|writers', not wr, f'ResourceAllocator.{f} is written / mutably borrowed only inside the allocator (outside: {sorted(wr)})', None)
 
+    # ---- R04.6 fraction bookkeeping in the pool
+    ctx.rule('R04.6', 'pool: a fraction handed to an allocation is subtracted from the per-index free-fraction entry on the same path (try_take_fraction); fractions returned on release are added back')
+    POOLP = W + 'resources::pool::ResourcePool::'
+    ttf = prog.body(POOLP + 'try_take_fraction')
+    pushes_ = ttf.call_blocks(lambda c: c.endswith('SmallVec::push'))
+    subs_ = [bi for bi, t, c in ttf.calls() if bi in ttf.reachable() and (callee_decl(t) or '').endswith(('SubAssign::sub_assign', 'Sub::sub'))] + \
+        [bi for bi, s_, op, a, c in binops(ttf) if op.startswith('Sub')]
+    ctx.require(pushes_, 'R04.6: try_take_fraction hands out no index')
+    okf = all(x not in ttf.reach_from([0], avoid=subs_) or must_pass(ttf, [x], subs_)[0] for x in pushes_) and bool(subs_)
+    ctx.ob('R04.6', 'try_take_fraction|taken fraction subtracted', okf, 'the fraction pushed into the allocation is subtracted from the free-fraction entry of that index on the same path', ttf.loc(pushes_[0]))
     # ---- R04.4
     lt = ts.call_blocks(REACT + 'launch_task')
     ctx.require(lt, 'R04.4: launch_task call')
